@@ -86,7 +86,7 @@ def run_case(rng, tier, case):
         if rs.stage in ('optimize', 'extract'):
             case.check('split.optimize_and_extract_work', False, interval=size, stage=rs.stage, error=flow.describe_error(rs)); return
         periodic = any('+periodic' in t for t in gen.asset_types(spec))
-        if isinstance(rs.error, (AssertionError,)) or 'concatenate str' in str(rs.error) or "has no attribute 'drop'" in str(rs.error) or (periodic and 'unit abbreviation' in str(rs.error)):
+        if isinstance(rs.error, (AssertionError,)) or 'concatenate str' in str(rs.error) or (periodic and 'unit abbreviation' in str(rs.error)):
             case.reject('split: ' + flow.describe_error(rs)); return       # periodic assets on interval grids: EAO's domain assertion
         case.check('split.setup_works', False, interval=size, error=flow.describe_error(rs)); return
     n_int = len(rs.op.ops)
